@@ -142,11 +142,24 @@ func (c *checker) blockFieldMutants(t blockTarget, other *consensusAPI.Block, ot
 	var eh hash.Hash
 	eh.Empty()
 	add("hash", "set", "hash=empty-hash", func(b *consensusAPI.Block) { b.Hash = eh })
-	// Time (second granularity is what the header binds through Block.Time).
-	for _, d := range []time.Duration{time.Second, -time.Second, time.Nanosecond, -time.Nanosecond, 999 * time.Millisecond, time.Hour, -24 * time.Hour} {
+	// Time: the header binds Block.Time exactly (header time truncated to the second).
+	for _, d := range []time.Duration{
+		time.Nanosecond, time.Microsecond, time.Millisecond, 500 * time.Millisecond, 999 * time.Millisecond, time.Second - time.Nanosecond,
+	} {
+		d := d
+		// Inside the same wall-clock second (Block.Time is second-aligned) ...
+		add("time", "delta-subsecond", "time+"+d.String(), func(b *consensusAPI.Block) { b.Time = b.Time.Add(d) })
+		// ... and across the second boundary into the previous second.
+		add("time", "delta-subsecond", "time-"+d.String(), func(b *consensusAPI.Block) { b.Time = b.Time.Add(-d) })
+	}
+	for _, d := range []time.Duration{time.Second, -time.Second, time.Second + time.Nanosecond, 2 * time.Second, time.Minute, time.Hour, -24 * time.Hour} {
 		d := d
 		add("time", "delta", "time"+d.String(), func(b *consensusAPI.Block) { b.Time = b.Time.Add(d) })
 	}
+	add("time", "set-subsecond", "time = header time rounded to the nearest second", func(b *consensusAPI.Block) { b.Time = t.lb.Time.Round(time.Second) })
+	add("time", "set-subsecond", "time = header time truncated to the millisecond", func(b *consensusAPI.Block) { b.Time = t.lb.Time.Truncate(time.Millisecond) })
+	add("time", "set-subsecond", "time = header time truncated to the microsecond", func(b *consensusAPI.Block) { b.Time = t.lb.Time.Truncate(time.Microsecond) })
+	add("time", "set-subsecond", "random instant inside the header's second", func(b *consensusAPI.Block) { b.Time = b.Time.Add(time.Duration(1 + rng.Int64N(999_999_999))) })
 	add("time", "other-block", "time of the other block", func(b *consensusAPI.Block) { b.Time = other.Time })
 	add("time", "set", "time=zero", func(b *consensusAPI.Block) { b.Time = time.Time{} })
 	add("time", "set", "time=untruncated header time", func(b *consensusAPI.Block) { b.Time = t.lb.Time })
